@@ -16,7 +16,7 @@ import (
 	"golang.org/x/tools/go/packages"
 )
 
-func constOf(p *packages.Package, name string) constant.Value {
+func vmConstOf(p *packages.Package, name string) constant.Value {
 	o := p.Types.Scope().Lookup(name)
 	c, ok := o.(*types.Const)
 	if !ok {
@@ -26,7 +26,7 @@ func constOf(p *packages.Package, name string) constant.Value {
 }
 
 func constInt(p *packages.Package, name string) int64 {
-	v := constOf(p, name)
+	v := vmConstOf(p, name)
 	x, ok := constant.Int64Val(constant.ToInt(v))
 	if !ok {
 		panic(fmt.Sprintf("constant %s.%s is not an integer", p.PkgPath, name))
